@@ -46,6 +46,7 @@ func (lookupError) SanitizedError() string { return "lookup failed" }
 type Person struct {
 	Id int64
 }
+
 // C is a union member without a key field
 type C struct {
 	Z string
@@ -97,6 +98,7 @@ var changes = []struct {
 		}
 		return s
 	}},
+	{"clear", func(s state) state { s.Items = nil; return s }},
 	{"edit", func(s state) state {
 		if len(s.Items) > 0 {
 			it := append([]Node{}, s.Items...)
